@@ -53,6 +53,14 @@ T = {
  "W4_C14_hashrpf_terminator": ("C14", "extractStringAndCompareRP restores the caller's terminator on all paths but one", "HASHRPF locate of a pattern that is a proper prefix of the string in the last probed cell: the byte after the pattern stays overwritten with the closing symbol; answers unchanged"),
  "W4_C17_dacvls_last_single": ("C17", "DAC_VLS constructor loops stop one element early", "a list whose LAST sequence has exactly one symbol: it is dropped (getListLength n-1, access(n) returns another sequence's tail)"),
  "W4_C19_rg_select0": ("C19", "BitSequenceRG::select0 superblock search uses <=", "select0(j) when j equals the number of zeros before a superblock boundary and the last bit of that superblock is 1 (vectors >= 32*factor bits); also WaveletTree select through it"),
+ "W5_C03_pfc_full_last_bucket": ("C03", "PFC locate treats a completely full last bucket as empty (the sub-agent re-invented the first-wave change C01-pfc-full-last-bucket; kept as a cross-check of C03 against it)", "PFC; n an exact multiple of the bucket size; a non-header string of the last bucket: locate gives 0, so s<t but locate(s) > locate(t)"),
+ "W5_C05_xbw_dup_strings": ("C05", "IteratorDictStringXBWDuplicates skips repeated results with an off-by-one bound", "XBW extractSubstr when the matching member with the greatest XBW ID contains the pattern at least twice: that string is delivered twice (the set of strings stays right, locateSubstr stays right)"),
+ "W5_C08_logseq_ctor_padding": ("C08", "LogSequence(vector, numbits) zeroes only the completely used words", "PFC / RPFC blStrings and HASHRPF Cls whose bit count leaves 1..56 bits in the last word: the padding bits of the image are heap garbage; every answer stays right"),
+ "W5_C12_fmindex_sample_count": ("C12", "FMINDEX build_ssa converts (len-1)/step+1 suffix samples into IDs", "a BWT sampling step that divides the indexed text length (always for step 1): the last sample keeps its raw text position and substring search reports it as an ID"),
+ "W5_C15_rpfc_maxlength_plus2": ("C15", "RPFC constructor raises maxlength to the byte length of an internal string's coded run", "RPFC; a string of maximal length that is not a bucket header and shares no prefix with its predecessor: maxLength = longest+2"),
+ "W5_C16_fmindex_unsupported_mutates": ("C16", "FMINDEX extractSubstr without sampling clears the alphabet flag of the pattern's last byte before returning NULL", "FMINDEX built with BWT sampling 0; extractSubstr(p), then locate / locatePrefix / extractPrefix of anything containing p's last byte: no match"),
+ "W5_C18_huffman_depth1": ("C18", "Huffman encodeHuff stops walking up at level 2", "a frequency vector whose most frequent symbol gets a 1-bit codeword (>= 2/5 of the mass): it is written as 10, 11 is unused: Kraft sum 3/4"),
+ "W5_C20_rule_array_growth": ("C20", "Dictionary::insertRule clears the new part of the rule array starting one entry too early", "inputs on which Re-Pair creates more than 256 rules: rule 255 (then 340, 453, ...) becomes (0,0)"),
 }
 for d in sorted(os.listdir(S)):
     p = os.path.join(S, d)
